@@ -594,6 +594,10 @@ func (s *Sim) opDumpLoad(op *Op) {
 	// through JSON, as a serializer would do
 	if op.N%2 == 0 {
 		b, err := json.Marshal(&dump)
+		if op.N%4 == 0 {
+			// a serializer may as well write indented JSON
+			b, err = json.MarshalIndent(&dump, "", "\t")
+		}
 		if err != nil {
 			s.violate("C17", "dump.codec", "marshal", false, "EntityDump JSON marshal failed: %v", err)
 			return
@@ -741,6 +745,25 @@ func (s *Sim) opCodec(op *Op) {
 	var e3 ecs.Entity
 	if err != nil || json.Unmarshal(j, &e3) != nil || e3 != e {
 		s.violate("C17", "codec.roundtrip", "json", false, "JSON round trip of %v gave %v (err %v)", e, e3, err)
+	}
+	// an entity inside a document, indented, and with the white space JSON allows
+	type doc struct {
+		A ecs.Entity
+		L []ecs.Entity
+		M map[string]ecs.Entity
+	}
+	dc := doc{A: e, L: []ecs.Entity{other, e}, M: map[string]ecs.Entity{"x": e, "y": other}}
+	var dc2 doc
+	if jb, err := json.MarshalIndent(&dc, " ", "  "); err != nil || json.Unmarshal(jb, &dc2) != nil || dc2.A != e || len(dc2.L) != 2 || dc2.L[0] != other || dc2.L[1] != e || dc2.M["x"] != e || dc2.M["y"] != other {
+		s.violate("C17", "codec.roundtrip", "json_indent", false, "indented JSON round trip of a document with entities %v, %v failed (err %v): %+v", e, other, err, dc2)
+	}
+	for _, form := range []string{"[%d, %d]", " [ %d ,%d ] ", "[\n\t%d,\n\t%d\n]", "[%d,\r\n %d]"} {
+		var e6 ecs.Entity
+		txt := fmt.Sprintf(form, e.ID(), e.Gen())
+		if err := json.Unmarshal([]byte(txt), &e6); err != nil || e6 != e {
+			s.violate("C17", "codec.roundtrip", "json_whitespace", false, "valid JSON %q for entity %v decodes to %v (err %v)", txt, e, e6, err)
+			break
+		}
 	}
 	if len(op.B) != 8 {
 		var e5 ecs.Entity
